@@ -98,7 +98,7 @@ Definition start_spec (s : sampler) (obs : list span_obs) (gens : list (bytes * 
   end &&
   match so_answer so with
   | Some (d, ts, p) =>
-      start_ok parent (fst g) (snd g) d ts c (so_recording so) in1 &&
+      start_ok (stock s) parent (fst g) (snd g) d ts c (so_recording so) in1 &&
       (* ParentBased asks the delegate the parent's shape selects; default options: the parent's decision *)
       (if is_parent_based s then match p with k :: _ => k =? pick_index parent | [] => false end else true) &&
       (if is_default_parent_based s then
@@ -109,7 +109,8 @@ Definition start_spec (s : sampler) (obs : list span_obs) (gens : list (bytes * 
       bytes_eqb (o_sid c) (snd g) &&
       bytes_eqb (o_tid c) (if negb (zero (o_tid parent)) then o_tid parent else fst g) &&
       negb (o_remote c) && (o_flags c / 2 =? o_flags parent / 2) &&
-      implb (sampled_flag (o_flags c)) (so_recording so) && Bool.eqb in1 (sampled_flag (o_flags c))
+      implb (sampled_flag (o_flags c)) (so_recording so) && Bool.eqb in1 (sampled_flag (o_flags c)) &&
+      implb (stock s) (bytes_eqb (o_ts c) (o_ts parent))
   end.
 
 Fixpoint starts_spec (s : sampler) (obs : list span_obs) (gens : list (bytes * bytes)) (e1 e2 : list bytes)
